@@ -272,45 +272,8 @@ func (w *world) genLifecycle() string {
 		walkBlock(fd.Body.List)
 		// copy-out of the writer
 		if name == "packet.(*Writer).Bytes" || name == "packet.(*Writer).BytesWithLength" {
-			made := map[types.Object]bool{}
-			copied := map[types.Object]bool{}
-			ok := true
-			ast.Inspect(fd.Body, func(n ast.Node) bool {
-				switch x := n.(type) {
-				case *ast.AssignStmt:
-					if len(x.Lhs) == 1 && len(x.Rhs) == 1 {
-						if c, isCall := x.Rhs[0].(*ast.CallExpr); isCall {
-							if f, isId := c.Fun.(*ast.Ident); isId && f.Name == "make" {
-								if id, isId := x.Lhs[0].(*ast.Ident); isId {
-									made[info.ObjectOf(id)] = true
-								}
-							}
-						}
-					}
-				case *ast.CallExpr:
-					if f, isId := x.Fun.(*ast.Ident); isId && f.Name == "copy" && len(x.Args) == 2 {
-						dst := x.Args[0]
-						if se, isSl := dst.(*ast.SliceExpr); isSl {
-							dst = se.X
-						}
-						if id, isId := dst.(*ast.Ident); isId {
-							copied[info.Uses[id]] = true
-						}
-					}
-				case *ast.ReturnStmt:
-					if len(x.Results) >= 1 {
-						switch r := x.Results[0].(type) {
-						case *ast.Ident:
-							if r.Name != "nil" && !(made[info.Uses[r]] && copied[info.Uses[r]]) {
-								ok = false
-							}
-						default:
-							ok = false
-						}
-					}
-				}
-				return true
-			})
+			// the result is storage made in the call (directly or by a helper that makes and fills it), never the pooled buffer
+			ok := w.retProvOf(fn, 0) == "fresh"
 			copyOuts = append(copyOuts, fmt.Sprintf("(%s, %v)", q(name), ok))
 		}
 	}
